@@ -4,6 +4,7 @@ package persisters
 //go:generate go-bindata -pkg metadata -o ../../internal/db/sqlite/migrations/metadata/migrations.go ../../db/sqlite/migrations/metadata
 
 import (
+	"archive/tar"
 	"context"
 	"database/sql"
 	"fmt"
@@ -105,6 +106,11 @@ func (p *MetadataPersister) UpsertHeader(ctx context.Context, dbhdr *config.Head
 	hdr := *idbhdr
 	if !initializing {
 		hdr.Name = p.getSanitizedPath(ctx, idbhdr.Name)
+
+		// Symlinks are looked up by their (sanitized) link path, so it has to be stored in the same form as names
+		if hdr.Typeflag == tar.TypeSymlink && hdr.Linkname != "" {
+			hdr.Linkname = p.getSanitizedPath(ctx, idbhdr.Linkname)
+		}
 	}
 
 	if _, err := models.Headers(
